@@ -262,7 +262,8 @@ func arrayExecFind(ar *Array, values []r.Element) (r.Element, error) {
 		if res, err := CompareValues(item, values[0], CmpEq); err != nil {
 			return nil, err
 		} else if res {
-			idx = i
+			// positions start from 1 (same as A#1, 交换, 遍历 ...)
+			idx = i + 1
 			break
 		}
 	}
